@@ -1,11 +1,11 @@
 CONSTANTS
-  FAMILY = "one"
+  FAMILY = "avar"
   D = 4
-  NV = 1
+  NV = 2
   DeltaVecs <- DV_std
   Dists <- Dists_two
   Lim2 <- Lim2_none
-  MapIds = {1}
+  MapIds = {2, 3, 4}
   Conds <- Conds_quick
 INIT Init
 NEXT Next
